@@ -342,6 +342,18 @@ def run(ctx):
         ctx.attempt(rule_clear_guard, ctx, v, 'C11.4')
         ctx.attempt(rule4_delete, ctx, fl)
         ctx.attempt(rule5_terminations, ctx, fl)
+        from . import c01
+        with ctx.shared({'C01.6': 'C11.9'}, keep=lambda k: 'TLS' in k or 'destructor' in k, floor=1,
+                        doc='the finish sequence runs the key destructors first (shared with C01.6): after the hand-over to a waiting '
+                            'joiner the finishing thread never runs again, so destructors placed behind it are skipped whenever a joiner '
+                            'is already waiting'):
+            stops01 = ('myth_queue_push', 'myth_queue_pop', 'get_new_myth_thread_struct_desc', 'get_new_myth_thread_struct_stack',
+                       'free_myth_thread_struct_desc', 'free_myth_thread_struct_stack', 'myth_get_current_env_noinline', 'myth_tls_tree_fini',
+                       'myth_init_ex_body', 'myth_entry_point_cleanup') + lib.SPIN_STOPS
+            v01 = ctx.view(NATIVE, roots=['myth_create_ex_body', 'myth_create_1', 'myth_entry_point', 'myth_exit_body', 'myth_testcancel_body',
+                                          'myth_join_body', 'myth_tryjoin_body', 'myth_join_2', 'myth_join_3', 'myth_entry_point_cleanup',
+                                          'myth_entry_point_1', 'myth_entry_point_2'], stops=stops01, flavour=fl)
+            ctx.attempt(c01.rule6_finish, ctx, v01)
         from . import c10
         with ctx.shared({'C10.3': 'C11.8'}, floor=2,
                         doc='a new thread starts with an empty thread-specific tree on both creation paths (shared with C10.3): a recycled '
